@@ -14,7 +14,7 @@ DESIGN_REF = "DESIGN.md section 4, C20"
 RULE = (
     "(A) shared curve objects: operation A (k*G / mul_add / verification / key generation on a FRESH PointJacobi(generator=True) with empty table; "
     "scale / to_affine / x,y / k*P / G.mul_add(..P..) / vk.verify / to_bytes / == / + on a public-key point built with z != 1; verification and k*P with a "
-    "lazily precomputed key) is stopped at its i-th trace event inside the PointJacobi/AbstractPoint frames whose self/other is the shared object (line events via "
+    "lazily precomputed key; the same on a generator-flagged point stored with z != 1 (scenario genz: lazy table AND in-place rescaling in one object)) is stopped at its i-th trace event inside the PointJacobi/AbstractPoint frames whose self/other is the shared object (line events via "
     "sys.settrace; INSTRUCTION events via sys.monitoring: quick for the short operations and the table build on SECP112r1, thorough for all listed pairs incl. the "
     "pure arithmetic helper frames); there a COMPLETE operation B on the same object runs inline in the trace callback (equivalent under the GIL to a switch to a "
     "second thread that runs B to completion), then A resumes. EVERY i of every listed (curve, A, B) pair is enumerated (parts sweep_*: SECP112r1 + BRAINPOOLP160r1, "
@@ -45,7 +45,7 @@ ASSUMPTIONS = [
 REQUIRED_CLASSES = [
     "preempt.in=_maybe_precompute", "preempt.in=scale", "preempt.in=__mul__", "preempt.in=mul_add", "preempt.in=to_affine",
     "preempt.state=before_publish", "preempt.state=after_publish", "A.mutates=table", "A.mutates=coords", "baseline.ossl_agree",
-    "scen=gen", "scen=pub", "scen=vkpre", "sampled.preemptions=2", "mode=line", "mode=instr",
+    "scen=gen", "scen=pub", "scen=vkpre", "scen=genz", "sampled.preemptions=2", "mode=line", "mode=instr",
     "lock.two_readers_states", "lock.writer_alone_states", "lock.blocked_states", "lock.probe_second_reader_enters",
 ]
 
@@ -129,6 +129,13 @@ def build(case):
         ctx.vk = KEYS.VerifyingKey.from_public_point(S, c, hashlib.sha256)
         ctx.S_aff = (px, py)
         ctx.s_scalar = d
+    elif scen == "genz":
+        # both kinds of shared state in ONE object: a generator-flagged point (lazy table) that is stored with z != 1 (rescaled in place)
+        S = EC.PointJacobi(c.curve, px * z * z % p, py * z * z * z % p, z, n, generator=True)
+        ctx.curve_obj = c
+        ctx.vk = KEYS.VerifyingKey.from_public_point(S, c, hashlib.sha256)
+        ctx.S_aff = (px, py)
+        ctx.s_scalar = d
     elif scen == "vkpre":
         P = EC.PointJacobi(c.curve, px * z * z % p, py * z * z * z % p, z, n)
         ctx.curve_obj = c
@@ -145,9 +152,9 @@ def build(case):
     ctx.scen = scen
     # preconditions of the scenario (a failure here is a harness problem, not a property violation)
     coords, table = raw_state(S)
-    if scen in ("gen", "vkpre") and table not in ((), None):
+    if scen in ("gen", "vkpre", "genz") and table not in ((), None):
         raise RuntimeError("fresh generator already has a table")
-    if scen == "pub" and coords is not None and coords[2] == 1:
+    if scen in ("pub", "genz") and coords is not None and coords[2] == 1:
         raise RuntimeError("public point is already scaled")
     return ctx
 
@@ -506,6 +513,8 @@ def combos(tier, curve, level):
              ("mul_add_other", s["k2"], s["k1"]), ("add",), ("double",), ("neg",), ("copy_mul", 5)]
     pre_a = [("verify", "good"), ("mul", s["big"])]
     pre_b = [("verify", "bad"), ("verify", "good"), ("mul", s["mid"]), ("xy",), ("eq",)]
+    gz_a = [("mul", s["big"]), ("verify", "good"), ("mul_add", s["k1"], s["k2"]), ("scale",), ("xy",)]
+    gz_b = [("scale",), ("to_affine",), ("xy",), ("mul", s["mid"]), ("to_bytes", "compressed"), ("verify", "good")]
     long_a = ("mul", "mul_add", "mul_add_other", "verify", "keygen")
     out = []
 
@@ -518,7 +527,11 @@ def combos(tier, curve, level):
         cross("gen", gen_a, gen_b)
         cross("pub", pub_a, pub_b)
         cross("vkpre", pre_a, pre_b)
+        cross("genz", gz_a, gz_b)
     elif level == "quick":
+        cross("genz", gz_a[:1], gz_b[:4])
+        cross("genz", gz_a[1:2], gz_b[:1])
+        cross("genz", gz_a[3:], gz_b[3:])
         # long A operations (hundreds of events) meet the four most discriminating B; short ones meet every B
         cross("gen", gen_a[:3], [gen_b[0], gen_b[3], gen_b[5], gen_b[8]])
         cross("gen", gen_a[3:], [gen_b[0], gen_b[5]])
@@ -534,6 +547,7 @@ def combos(tier, curve, level):
         cross("gen", [gen_a[0], gen_a[2]] if level == "core" else [gen_a[0]], [gen_b[0], gen_b[5]])
         cross("pub", [pub_a[0], pub_a[1]], [pub_b[0], pub_b[1], pub_b[3], pub_b[4], pub_b[7]])
         cross("pub", [pub_a[2], pub_a[5]], [pub_b[0], pub_b[1]])
+        cross("genz", gz_a[:1], gz_b[:1])
         if level == "core":
             cross("vkpre", pre_a[:1], pre_b[1:2])
     return out
@@ -583,11 +597,13 @@ A_NAMES = {
     "gen": ["mul", "rmul", "mul_add", "verify", "keygen", "sign"],
     "pub": ["scale", "to_affine", "mul", "mul_add_other", "mul_add", "verify", "xy", "to_bytes", "eq", "eq_rev", "add", "radd", "x", "y"],
     "vkpre": ["verify", "mul", "mul_add_other"],
+    "genz": ["mul", "rmul", "mul_add", "verify", "scale", "to_affine", "xy", "to_bytes", "mul_add_other"],
 }
 B_NAMES = {
     "gen": ["mul", "rmul", "mul_add", "verify", "keygen", "sign", "xy", "to_bytes", "eq", "eq_rev", "copy_mul", "add", "double", "neg"],
     "pub": ["scale", "to_affine", "mul", "mul_add_other", "mul_add", "verify", "xy", "x", "y", "to_bytes", "eq", "eq_rev", "eq_other", "add", "radd", "double", "neg", "copy_mul"],
     "vkpre": ["verify", "mul", "mul_add_other", "xy", "to_bytes", "eq", "copy_mul"],
+    "genz": ["scale", "to_affine", "xy", "x", "y", "mul", "verify", "to_bytes", "eq", "add", "double", "neg", "copy_mul", "mul_add"],
 }
 
 
@@ -623,7 +639,7 @@ def strat_sampled(tier):
                 scen=st.just(scen), curve=st.just(curve), mode=st.just("line") if tier == "quick" else st.sampled_from(["line", "line", "instr"]), helpers=st.booleans(), d=st.integers(1, n - 1), z=st.integers(2, p - 1),
                 a=a, bs=st.lists(b, min_size=1, max_size=3), frac=st.lists(st.integers(0, 9999), min_size=3, max_size=3)))
 
-        return st.sampled_from(["gen", "pub", "pub", "vkpre"]).flatmap(for_scen)
+        return st.sampled_from(["gen", "pub", "pub", "vkpre", "genz"]).flatmap(for_scen)
 
     return st.sampled_from(curves).flatmap(for_curve)
 
